@@ -106,10 +106,21 @@ package wasp
 //@   requires processor != nil && processor.tapsDispatcher != nil && processor.state != nil && processor.distributor != nil && wg != nil
 //@   requires processor.distributor.State != nil && processor.distributor.Storage != nil && processor.distributor.Logger != nil && processor.distributor.Transport != nil
 
-// A-LOGGER: every context handed to broker code carries the logger (cmd/wasp stores it before anything runs).
+// A-LOGGER (narrowed): every context a function RECEIVES carries the logger (cmd/wasp stores it before anything runs; the
+// verifier assumes has_logger for context parameters and captured contexts). A context a function makes itself carries it only
+// if it was derived from one that does (specs/00_std.spec): L on a context made from context.Background() panics, and in the
+// callbacks of the in-flight table that panic is outside every recover (C18).
 //@ trusted func L(ctx context.Context) (l *zap.Logger)
+//@   requires [C18] has_logger(ctx)
 //@   ensures l != nil
 //@   pure
+//@ trusted func StoreLogger(ctx context.Context, l *zap.Logger) (r context.Context)
+//@   ensures r != nil && has_logger(r)
+//@   modifies nothing
+//@ trusted func AddFields(ctx context.Context, fields []zap.Field) (r context.Context)
+//@   requires [C18] has_logger(ctx)
+//@   ensures r != nil && has_logger(r)
+//@   modifies nothing
 
 // Every publish request handed to a worker carries a packet with a header (established by publishHandler's callers).
 //@ chan publishRequestInput(v)
